@@ -1,0 +1,92 @@
+//go:build verif
+
+// Contracts for the deductive checks under /verif (comment-only; no code).
+
+package dsindex
+
+// ---- C24: every operation of the index addresses one and the same key function ------------
+//   ixKey(k, v) = NewKey(enc(k)).ChildString(enc(v))      prefix of k = enc(k)
+//@ spec enc(s string) string
+//@ spec dec(s string) string
+//@ spec newKey(s string) ds.Key
+//@ spec childKey(k ds.Key, s string) ds.Key
+//@ spec pathBase(p string) string
+//@ func encode
+//@   assumed
+//@   ensures result == enc(data)
+//@ func decode
+//@   assumed
+//@   ensures err == nil ==> result0 == dec(data)
+//@ func ext github.com/ipfs/go-datastore.NewKey
+//@   ensures result == newKey(s)
+//@ func ext (github.com/ipfs/go-datastore.Key).ChildString
+//@   ensures result == childKey(k, s)
+//@ func ext path.Base
+//@   ensures result == pathBase(path)
+//@ func iface github.com/ipfs/go-datastore.Datastore.Put
+//@ func iface github.com/ipfs/go-datastore.Datastore.Delete
+//@ func iface github.com/ipfs/go-datastore.Datastore.Has
+//@ macro ixKey(k, v) = childKey(newKey(enc(k)), enc(v))
+
+//@ func (*indexer).Add
+//@   prop C24
+//@   arith int
+//@   requires x != nil
+//@   modifies all
+//@   site[point_key] invoke:Datastore.Put : arg2 == ixKey(key, value) && len(arg3) == 0
+//@   ensures[empty_key] key == "" ==> err == ErrEmptyKey
+//@   ensures[empty_value] key != "" && value == "" ==> err == ErrEmptyValue
+//@   ensures[stored] key != "" && value != "" ==> err == res("invoke:Datastore.Put#0")
+
+//@ func (*indexer).Delete
+//@   prop C24
+//@   arith int
+//@   requires x != nil
+//@   modifies all
+//@   site[point_key] invoke:Datastore.Delete : arg2 == ixKey(key, value)
+//@   ensures[empty_key] key == "" ==> err == ErrEmptyKey
+//@   ensures[empty_value] key != "" && value == "" ==> err == ErrEmptyValue
+//@   ensures[deleted] key != "" && value != "" ==> err == res("invoke:Datastore.Delete#0")
+
+//@ func (*indexer).HasValue
+//@   prop C24
+//@   arith int
+//@   requires x != nil
+//@   modifies all
+//@   site[point_key] invoke:Datastore.Has : arg2 == ixKey(key, value)
+//@   ensures[empty_key] key == "" ==> err == ErrEmptyKey && !result0
+//@   ensures[empty_value] key != "" && value == "" ==> err == ErrEmptyValue && !result0
+//@   ensures[looked_up] key != "" && value != "" ==> result0 == res("invoke:Datastore.Has#0") && err == res("invoke:Datastore.Has#0", 1)
+
+//@ func (*indexer).queryPrefix
+//@   assumed
+//@ func (*indexer).deletePrefix
+//@   prop C24
+//@   arith int
+//@   requires x != nil
+//@   modifies all
+//@   site[from_this_prefix] call:indexer.queryPrefix : arg2 == prefix
+//@   site[delete_listed_entry] invoke:Datastore.Delete : arg2 == newKey(ents[i].Key) && 0 <= i && i < len(ents)
+//@   ensures[count] err == nil ==> result0 == len(res("call:indexer.queryPrefix#0"))
+//@   ensures[query_error] res("call:indexer.queryPrefix#0", 1) != nil ==> err != nil && result0 == 0
+
+//@ func (*indexer).DeleteKey
+//@   prop C24
+//@   arith int
+//@   requires x != nil
+//@   modifies all
+//@   site[prefix_of_key] call:indexer.deletePrefix : arg2 == enc(key)
+//@   ensures[empty_key] key == "" ==> err == ErrEmptyKey && result0 == 0
+
+//@ func (*indexer).Search
+//@   prop C24
+//@   arith int
+//@   safety index
+//@   requires x != nil
+//@   modifies all
+//@   site[prefix_of_key] call:indexer.queryPrefix : arg2 == enc(key)
+//@   loop 0 invariant[decoded_so_far] len(values) == len(ents) && forall(j, 0, rangeindex + 1, values[j] == dec(pathBase(ents[j].Key)))
+//@   loop 0 invariant[separate] arr(values) != arr(ents)
+//@   ensures[empty_key] key == "" ==> err == ErrEmptyKey
+//@   ensures[one_value_per_entry] err == nil && key != "" ==> len(result0) == len(res("call:indexer.queryPrefix#0"))
+//@   ensures[values_decoded] err == nil && key != "" ==> forall(j, 0, len(result0), result0[j] == dec(pathBase(res("call:indexer.queryPrefix#0")[j].Key)))
